@@ -2,8 +2,11 @@
 import json, os, shutil, sys
 pid, m, caught = sys.argv[1], sys.argv[2], sys.argv[3]
 checks = sys.argv[4] if len(sys.argv) > 4 else ""
-src = "/tmp/seed/out/%s/%s" % (pid, m)
-dst = "/verif/seeded/%s_%s" % (pid, m)
+# optional: source base directory (round 2: /tmp/seed2/out) and the name to keep it under (m3, m4)
+base = sys.argv[5] if len(sys.argv) > 5 else "/tmp/seed/out"
+keep = sys.argv[6] if len(sys.argv) > 6 else m
+src = "%s/%s/%s" % (base, pid, m)
+dst = "/verif/seeded/%s_%s" % (pid, keep)
 os.makedirs(dst, exist_ok=True)
 for f in ("patch.diff", "demo.py", "demo.c", "notes.md"):
     if os.path.exists(os.path.join(src, f)):
@@ -11,7 +14,7 @@ for f in ("patch.diff", "demo.py", "demo.c", "notes.md"):
 cf = os.path.join(src, "confirm_mine.txt") if os.path.exists(os.path.join(src, "confirm_mine.txt")) else os.path.join(src, "confirm.txt")
 conf = open(cf).read().strip() if os.path.exists(cf) else ""
 notes = open(os.path.join(src, "notes.md")).read() if os.path.exists(os.path.join(src, "notes.md")) else ""
-meta = {"property": pid, "id": "%s_%s" % (pid, m),
+meta = {"property": pid, "id": "%s_%s" % (pid, keep), "round": 2 if "seed2" in base else 1,
         "needs_to_manifest": notes[:1500],
         "confirmed": conf,
         "what_i_ran": ["scratch worktree /tmp/seed/wt_confirm (confirm.sh): build pristine, demo.py (rc 0), git apply patch.diff + rebuild, demo.py (rc != 0), full pytest suite (873 passed, same failures as baseline)",
